@@ -304,15 +304,18 @@ class SimpleJSONRPCDispatcher(SimpleXMLRPCDispatcher, object):
                 try:
                     return jsonrpclib.jdumps(response, self.encoding)
                 except Exception as ex:
-                    # The response can't be represented in JSON (e.g. the
-                    # request ID was converted to a non-primitive object)
-                    fault = Fault(
-                        -32603,
-                        "{0}:{1}".format(type(ex).__name__, ex),
-                        config=self.json_config,
-                    )
-                    _logger.error("Error serializing response: %s", fault)
-                    return fault.response()
+                    # A response can't be represented in JSON (e.g. a result
+                    # with non-string keys, or the request ID was converted
+                    # to a non-primitive object): replace the faulty ones
+                    _logger.error("Error serializing response: %s", ex)
+                    if isinstance(response, list):
+                        response = [
+                            self._serializable_response(entry)
+                            for entry in response
+                        ]
+                    else:
+                        response = self._serializable_response(response)
+                    return jsonrpclib.jdumps(response, self.encoding)
             else:
                 # No result (notification)
                 return ""
@@ -329,6 +332,38 @@ class SimpleJSONRPCDispatcher(SimpleXMLRPCDispatcher, object):
             )
             _logger.error("Error handling request: %s", fault)
             return fault.response()
+
+    def _serializable_response(self, response):
+        """
+        Returns the given response dictionary if it can be represented in
+        JSON, else an error response with the same ID and in the same form
+
+        :param response: A JSON-RPC response dictionary
+        :return: A JSON-RPC response dictionary
+        """
+        try:
+            jsonrpclib.jdumps(response, self.encoding)
+            return response
+        except Exception as ex:
+            config = self.json_config
+            if "jsonrpc" not in response and config.version >= 2:
+                # Response to a JSON-RPC 1.0 request
+                config = config.copy()
+                config.version = 1.0
+
+            rpcid = response.get("id")
+            try:
+                jsonrpclib.jdumps(rpcid, self.encoding)
+            except Exception:
+                # The ID itself can't be represented
+                rpcid = None
+
+            return Fault(
+                -32603,
+                "{0}:{1}".format(type(ex).__name__, ex),
+                rpcid=rpcid,
+                config=config,
+            ).dump()
 
     def _marshaled_single_dispatch(self, request, dispatch_method=None):
         """
